@@ -595,7 +595,7 @@ func main() {
 	sg := &q1q.SGen{R: r, IDs: ids}
 
 	// ---- sel: abstract shards
-	nSel := f.N(2500, 100000)
+	nSel := f.N(2500, 40000)
 	for i := 0; i < nSel; i++ {
 		ctx := sg.Corpus(4, true)
 		for _, s := range ctx {
@@ -637,7 +637,7 @@ func main() {
 	}
 
 	// ---- agg: fake shards
-	nAgg := f.N(300, 5000)
+	nAgg := f.N(300, 3000)
 	for i := 0; i < nAgg; i++ {
 		var es [][]entry
 		for s := r.Range(0, 5); s > 0; s-- {
@@ -657,7 +657,7 @@ func main() {
 	}
 
 	// ---- search / list: real shards
-	nCorpora := f.N(10, 400)
+	nCorpora := f.N(10, 120)
 	for i := 0; i < nCorpora; i++ {
 		names := append([]string(nil), q1q.RepoNames...)
 		gen.Shuffle(r, names)
